@@ -142,8 +142,7 @@ def _stmt_list(draw, depth, budget, flags, in_loop=False, min_stmts=1):
             if depth > 0 and draw(st.integers(0, 3)) == 0:
                 inner = [["for", inner]]
                 if draw(st.integers(0, 2)) == 0:
-                    st_ = draw(st.sampled_from([1, 2, 3, 8]))
-                    inner[0].append([0, draw(st.integers(1, 2 * st_ + 1)), st_])
+                    inner[0].append(draw(_const_bounds(min_trips=1)))
             out.extend(inner)
             if draw(st.integers(0, 4)) == 0:
                 out.append(["bar"])
@@ -192,9 +191,7 @@ def _stmt_list(draw, depth, budget, flags, in_loop=False, min_stmts=1):
         elif k == "for":
             f_ = ["for", draw(_stmt_list(depth - 1, max(1, budget // 2), flags, True))]
             if draw(st.integers(0, 3)) == 0:
-                # constant bounds (lb, ub, step), the range need not be a multiple of the step
-                lb_, st_ = draw(st.sampled_from([0, 0, 1, 4])), draw(st.sampled_from([1, 2, 3, 8]))
-                f_.append([lb_, lb_ + draw(st.integers(0, 2 * st_ + 1)), st_])
+                f_.append(draw(_const_bounds()))
             out.append(f_)
         elif k == "if":
             cond = draw(st.one_of(st.tuples(st.just("p"), st.integers(0, 2)).map(list),
@@ -214,6 +211,16 @@ def _stmt_list(draw, depth, budget, flags, in_loop=False, min_stmts=1):
                 bodies.append(body)
             out.append(["region", bodies[0], mode] + bodies[1:])
     return out
+
+
+@st.composite
+def _const_bounds(draw, min_trips=0):
+    """Constant (lb, ub, step): trip counts 0 (also with ub < lb), 1, 2, 3; the range need not be a multiple of the step."""
+    lb_, st_ = draw(st.sampled_from([0, 0, 1, 4])), draw(st.sampled_from([1, 2, 3, 8]))
+    trips = draw(st.sampled_from([t for t in (0, 1, 1, 2, 2, 3) if t >= min_trips]))
+    if trips == 0:
+        return [lb_, lb_ - draw(st.integers(0, 4)), st_]
+    return [lb_, lb_ + (trips - 1) * st_ + 1 + draw(st.integers(0, st_ - 1)), st_]
 
 
 def count_loops(stmts):
